@@ -60,6 +60,8 @@ mod crypto;
 mod request_call;
 mod session;
 mod tests;
+#[cfg(feature = "verif-hooks")]
+pub mod verif_hooks;
 
 pub use crate::node_info::{NodeAddress, NodeContact};
 
